@@ -196,6 +196,7 @@ func c27(r *core.Run) {
 }
 
 func c28(r *core.Run) {
+	c28SignOnce(r)
 	w := r.W
 	const S = "pkg/routetab.Service"
 	maxTTL := func(y ssa.Value) bool {
